@@ -2,8 +2,8 @@
 # false-alarm sweep: every ready check, several seeds, quick tier, against a snapshot of /repo
 export VERIF_REPO=$VP_RUN_REPO
 ./setup.sh > setup.log 2>&1
-for s in 101 202 303; do
-  for p in C01 C02 C03 C04 C06 C07 C08 C09 C13 C14 C15 C16 C17 C18 C19 C20; do
+for s in ${SWEEP_SEEDS:-101 202 303}; do
+  for p in ${SWEEP_PROPS:-C01 C02 C03 C04 C05 C06 C07 C08 C09 C10 C11 C12 C13 C14 C15 C16 C17 C18 C19 C20}; do
     t0=$(date +%s)
     VERIF_SEED=$s ./check $p > out_${p}_$s.log 2>&1
     rc=$?
